@@ -10,7 +10,7 @@ CLAIMS = {
    note="Trusts the reference model (validated against RFC vectors at start-up), the hook accessor edwards_coords, rustc. Dispatcher answers are forced through the guarded hook.",
    technique="deterministic simulation: lockstep refinement against an affine reference model over seeded operation histories with Byzantine encodings"),
  "C04": dict(level="exploration", ref="DESIGN.md §3 C04",
-   text="Seeded simulation of a multiscalar service: every scalar-multiplication entry point is called on history-built points with dictionary/PRNG scalars, input counts across the Straus/Pippenger and window switches, four iterator kinds, None injected into optional streams, and the run-time dispatcher answered by the simulator (serial / AVX2 / IFMA per call); results compared with the reference model's sum of s_i*P_i.",
+   text="Seeded simulation of a multiscalar service: every scalar-multiplication entry point is called on history-built points with dictionary/PRNG scalars, input counts across the Straus/Pippenger and window switches (up to 8200 terms), short-scalar and word-structured scalars, four iterator kinds, None injected into optional streams, and the run-time dispatcher answered by the simulator (serial / AVX2 / IFMA per call); results compared with the reference model's sum of s_i*P_i.",
    note="Trusts the reference model and the dispatcher hook. Unreduced scalars only on entry points documented to accept them.",
    technique="deterministic simulation: environment-controlled dispatcher + injected None/iterator kinds, lockstep against reference sum"),
  "C06": dict(level="exploration", ref="DESIGN.md §3 C06",
@@ -26,15 +26,15 @@ CLAIMS = {
    note="Trusts the RFC 8032 model (validated by sign.input vectors and the Ed25519ph vector) and sha2.",
    technique="deterministic simulation: signer/verifier parties over SimNet, SimRng and chunked digest seams, lockstep against RFC 8032 model"),
  "C09": dict(level="exploration", ref="DESIGN.md §3 C09",
-   text="A Byzantine signer holding the torsion points sends constructed triples (small-order and mixed-order keys and R, non-canonical encodings, S+jl, bit damage) to verifiers in every mode, in builds with and without legacy_compatibility and under each dispatcher answer; each verdict compared with the reference predicate evaluated exactly.",
+   text="A Byzantine signer holding the torsion points sends constructed triples (small-order and mixed-order keys and R incl. cases where the verification equation holds, non-canonical encodings, S+jl, bit damage) to verifiers in every mode, in builds with and without legacy_compatibility and under each dispatcher answer; each verdict compared with the reference predicate evaluated exactly.",
    note="Challenge is the hash reduced mod l as the library documents. Trusts the model's predicate.",
    technique="deterministic simulation: Byzantine signer constructions on the wire, verdict-by-verdict comparison with an exact reference predicate"),
  "C13": dict(level="exploration", ref="DESIGN.md §3 C13",
-   text="A batch verifier fed by an unreliable network (reorder, duplicate, drop, corrupt) flushes queues of sizes across the algorithm switches (up to 1024 and 4100 entries), repeats, permutes and duplicates them; in-domain verdicts compared with the conjunction of reference single verifications, out-of-domain only the promised errors and determinism. Cooperating corruptions (S halves swapped at block distances, crafted S for an undecodable R) and an adaptive adversary that observes the batch coefficients through a guarded seam and shifts two S values so that their errors cancel.",
+   text="A batch verifier fed by an unreliable network (reorder, duplicate, drop, corrupt) flushes queues of sizes across the algorithm switches (up to 1024, 4100, 8200 and 16400 entries), repeats, permutes and duplicates them; in-domain verdicts compared with the conjunction of reference single verifications, out-of-domain only the promised errors and determinism. Cooperating corruptions (S halves swapped at block distances, crafted S for an undecodable R) and an adaptive adversary that observes the batch coefficients through a guarded seam and shifts two S values so that their errors cancel.",
    note="False Ok for an in-domain bad batch has probability 2^-128 and is ignored.",
    technique="deterministic simulation: queue histories under network faults, metamorphic (repeat/permute/duplicate) plus reference-conjunction oracle"),
  "C14": dict(level="exploration", ref="DESIGN.md §3 C14",
-   text="Create/use/drop histories run twice under a deterministic arena allocator with secrets differing in every byte; every freed block compared pairwise (differential taint) and dropped objects scanned for windows of their secrets; dispatcher forced per run.",
+   text="Create/use/drop histories run twice under a deterministic arena allocator with secrets differing in every byte; every freed block compared pairwise (differential taint) and dropped objects scanned for windows of their secrets; dispatcher forced per run; release and debug-assertions builds; multiscalars up to 8200 terms.",
    note="Frees during unwinding and stale stack copies are outside the statement.",
    technique="deterministic simulation: allocator seam with paired-run differential taint on freed blocks and drop-point scanning"),
  "C15": dict(level="exploration", ref="DESIGN.md §3 C15",
@@ -42,7 +42,7 @@ CLAIMS = {
    note="Release profile (shipped behaviour).",
    technique="deterministic simulation: no-node-crashes invariant under framing/Byzantine faults on every decoder"),
  "C16": dict(level="fault_enumeration", ref="DESIGN.md §3 C16",
-   text="For each sampled value of each serialisable type in bincode (legacy, varint, big-endian options) and JSON: canonical stream and round trip, then complete enumeration of truncations, bit flips, trailing bytes, duplicated blocks, length-prefix edits, JSON token edits (delete / duplicate / append / type confusion / digit insertion / very long sequences), boundary payloads (around l and p, structured word-wise) and SimFormat deserializer faults; the typed read must equal the native decoding rule applied to the payload the same stream yields as plain bytes (through the format's own parser), and deserialised points must be consistent representations.",
+   text="For each sampled value of each serialisable type in bincode (legacy, varint, big-endian options) and JSON: canonical stream and round trip, then complete enumeration of truncations, bit flips, trailing bytes, duplicated blocks, length-prefix edits, JSON token edits (delete / duplicate / append / type confusion / digit insertion / very long sequences / text renderings), boundary payloads (around l and p, structured word-wise) and SimFormat deserializer faults; the typed read must equal the native decoding rule applied to the payload the same stream yields as plain bytes (through the format's own parser), deserialised points must be consistent representations, loaded secret keys must derive the right public half, and every load is repeated through deserialize_in_place into an existing value.",
    note="Values are sampled, fault positions enumerated completely. Trusts bincode/serde_json as byte extractors.",
    technique="fault enumeration on stored encodings with a differential (native decoder) oracle"),
  "C05": dict(level="exploration", ref="DESIGN.md §3 C05",
@@ -50,7 +50,7 @@ CLAIMS = {
    note="Determinism of plan execution is what turns log equality into an oracle; validated by the determinism self-test.",
    technique="deterministic replay of identical plans across build configurations and dispatcher answers, event-log equality"),
  "C11": dict(level="exploration", ref="DESIGN.md §3 C11",
-   text="The same plans executed in a build with overflow checks and debug assertions and in release: no panic, identical logs; Byzantine all-ones encodings and long add/sub chains push limbs toward bounds. Does not decide the worst-case-limb core of the property (stated in DESIGN).",
+   text="The same plans executed in a build with overflow checks and debug assertions and in release: no panic, identical logs; Byzantine all-ones encodings and long add/sub chains push limbs toward bounds; the public scalar API (operators, ff::Field / PrimeField) is executed on dictionary scalars. Does not decide the worst-case-limb core of the property (stated in DESIGN).",
    note="Limited reach: sampled histories, not a bound proof.",
    technique="deterministic replay of identical plans in checked vs release builds"),
 }
